@@ -20,6 +20,11 @@ def selections(maxlen):
     out = []
     for n in range(1, maxlen + 1):
         out += [list(p) for p in itertools.permutations(NAMES, n)]
+    if maxlen == 2:
+        # quick tier: also the lists of three whose first element fails -- the reference tolerates that the sibling right
+        # after a failure was already started (slack S2), so "everything after a failure is still built" shows only with
+        # two siblings behind the failing one
+        out += [list(p) for p in itertools.permutations(NAMES, 3) if p[0] == "f"]
     return out
 
 
@@ -174,6 +179,7 @@ def main(tier):
     rc1 = e1prop.run_property(
         PID, tier, [(w, hs, 0), (dw, driver_histories(seqs), 0)], "rv.props.c05", check_names={"c05-driver": "driver_check"},
         rule="world {f fails iff flag, g->f, h, i->h}; every ordered selection of <= n of {f,g,h,i} (quick n=2, thorough n=3) "
+             "(quick: plus the lists of three that start with the failing target) "
              "as the command line of redo-ifchange, of redo, and as the redo-ifchange list inside all.do; x {-k, no -k}; x "
              "{failure at first build, failure at a later rebuild}; each history = build, build again unchanged, repair, build. "
              "Oracles: exit status vs reference, executed set == reference incl. retry in the next run, <=1 execution per run, "
@@ -210,6 +216,11 @@ def e2_scenarios(tier):
         flag = " -k" if k else ""
         L.append((SC.scn("fail-j2%s-g-h-i" % ("-k" if k else ""), w, ["redo --no-log -j2%s g h i" % flag],
                          setup=[["edit", "flag", "1"]], visible=vis, keep_going=k), 1 if q else 2))
+    # a second invocation (-j1) names h, which the first one is building, and then f, which fails while it waits for h:
+    # once the failure is known it must not go on to build h
+    L.append((SC.scn("fail-while-waiting-for-locked-target", w, ["redo-ifchange h", "redo --no-log h f"],
+                     setup=[["edit", "flag", "1"]], visible=SC.LOCKS + ["tok-read", "tok-write", "select-order"],
+                     strict_after_failure=True, failing_root="T1"), 1 if q else 2))
     if not q:
         L.append((SC.scn("fail-j2-k-f-g-h", w, ["redo --no-log -j2 -k f g h"], setup=[["edit", "flag", "1"]], visible=vis,
                          keep_going=True), 2))
@@ -225,8 +236,23 @@ def e2_oracle(scn, res):
         return out
     name = scn["name"]
     for n, rc in res["roots"].items():
-        if rc == 0:
+        if rc == 0 and scn.get("failing_root", n) == n:
             out.append(({"kind": "missed-failure", "scenario": name}, {"stderr": res["stderr"].get(n, "")[-500:]}))
+    if scn.get("strict_after_failure"):
+        # serial (-j1) invocation: a script of the run in which f failed never begins after f's failure
+        frun = None
+        failed_at = None
+        for i, l in enumerate(res["trace"]):
+            p_ = l.split(" ")
+            if p_[0] == "B" and p_[1] == "f":
+                frun = p_[2]
+            if p_[0] == "F" and p_[1] == "f":
+                failed_at = i
+        if failed_at is not None:
+            late = [l for l in res["trace"][failed_at + 1:] if l.startswith("B ") and l.split(" ")[2] == frun]
+            if late:
+                out.append(({"kind": "started-after-known-failure", "scenario": name, "target": late[0].split(" ")[1]},
+                            {"trace": res["trace"]}))
     ran = [l.split(" ")[1] for l in res["trace"] if l.startswith("B ")]
     if ran.count("f") > 1:
         out.append(({"kind": "failed-target-executed-twice-in-one-run", "scenario": name, "count": ran.count("f")}, {"ran": ran}))
